@@ -285,6 +285,9 @@ Proof.
     destruct (find_user _ _); [exact I|]. apply wps_ret. eapply R_frame; [|eauto]; reflexivity.
   - destruct (find_user _ _) as [c|]; [|exact I]. destruct (nth_error _ _); [|exact I].
     apply wps_ret. eapply R_frame; [|eauto]; reflexivity.
+  - (* LoopEnd *)
+    destruct (_ || _ || _); [exact I|]. unfold loop_end. cbn [k_chan set_timers set_pending].
+    destruct (k_chan s); [exact I|]. apply wps_ret. eapply R_frame; [|eauto]; reflexivity.
 Qed.
 
 Lemma step_R s o s' ev a : R a s -> step s o = Ok s' ev -> exists a', spec_run a ev = Some a' /\ R a' s'.
